@@ -7,15 +7,11 @@
  *   cfg s=H                (file content)                                    esl_opt_ProcessConfigfile
  *   verify                                                                   esl_opt_VerifyConfig
  *   dump                                                                     every query call
+ *   reuse                                                                    esl_getopts_Reuse
  * H = lowercase hex, "-" = empty string, "~" = NULL.
  */
 #include "hcommon.h"
 #include "esl_getopts.h"
-#include <unistd.h>
-
-/* esl_opt_ProcessConfigfile() does not free its line buffer on its usage-error returns (a leak, not part of
- * C14); keep LeakSanitizer quiet about exactly that allocation so that any other leak is still reported. */
-const char *__lsan_default_suppressions(void) { return "leak:esl_opt_ProcessConfigfile\n"; }
 
 #define MAXOPT 64
 static ESL_OPTIONS  T[MAXOPT + 1];
@@ -163,18 +159,18 @@ static void h_op(void)
     }
     report(esl_opt_ProcessEnvironment(G));
   } else if (!strcmp(op, "cfg")) {
-    char fn[64]; FILE *fp; const char *v = h_arg("s"); int64_t n = 0; unsigned char *b = NULL; int st;
-    snprintf(fn, sizeof(fn), "c14cfg.%d.tmp", (int) getpid());
+    /* the config file is an in-memory stream (no file system involved); an empty file is /dev/null */
+    FILE *fp; const char *v = h_arg("s"); int64_t n = 0; unsigned char *b = NULL; int st;
     if (v && strcmp(v, "~")) b = h_unhex(v, &n);
-    fp = fopen(fn, "w"); if (!fp) { h_out("io-error"); free(b); return; }
-    if (n) fwrite(b, 1, (size_t) n, fp);
+    fp = n ? fmemopen(b, (size_t) n, "r") : fopen("/dev/null", "r");
+    if (!fp) { h_out("io-error"); free(b); return; }
+    st = esl_opt_ProcessConfigfile(G, "c14.cfg", fp);
     fclose(fp); free(b);
-    fp = fopen(fn, "r"); if (!fp) { h_out("io-error"); return; }
-    st = esl_opt_ProcessConfigfile(G, fn, fp);
-    fclose(fp); remove(fn);
     report(st);
   } else if (!strcmp(op, "verify")) {
     report(esl_opt_VerifyConfig(G));
+  } else if (!strcmp(op, "reuse")) {
+    h_out("%s", h_status(esl_getopts_Reuse(G)));
   } else if (!strcmp(op, "dump")) {
     do_dump();
   } else h_out("bad-op");
